@@ -43,6 +43,7 @@ func init() {
 			{ID: "C02-R20", Title: "loads follow the scope walk", Floor: 3, Run: loadsFollowTheScopeWalk},
 			{ID: "C02-R21", Title: "closures are built where they are loaded and go to the stack only", Floor: 1, Run: closuresAreBuiltWhereTheyAreLoaded},
 			{ID: "C02-R22", Title: "every function literal gets its own code", Floor: 1, Run: everyFunctionLiteralGetsItsOwnCode},
+			{ID: "C02-R23", Title: "the slot of a named function is filled whenever it was reserved", Floor: 1, Run: theSelfSlotIsFilledWheneverItWasReserved},
 		},
 	})
 }
